@@ -9,21 +9,23 @@ from props import base
 from props.base import Context  # noqa: F401
 
 PID = 'C08'
-TIE_MODULES = ['DiffxVerif.Tie.Sections', 'DiffxVerif.Tie.RegexReader']
-NEEDS = ['sections', 'options', 'text', 're_reader']
+TIE_MODULES = ['DiffxVerif.Tie.Sections']
+NEEDS = ['sections', 'options', 'text']
+# a change of these pattern tables makes the check search with its escalated budget (no obligation)
+SOFT_PATTERNS = ['re_reader']
 ASSUMPTIONS = [
     'CPython codecs / json are environment; their exceptions are mapped to one "err" answer (the repaired reader turns every one into DiffXParseError)',
     'object-model clauses (error family, stream closed) are checked directly on the implementation (the DOM loader is modelled in Properties/C05)',
 ]
 
 BAD_VALUES = {
-    'length': [b'abc', b'-1', b'0', b'1', b'99999', b'10000000000000000000000', b'1_0', b'1.5', b'-0'],
-    'indent': [b'x', b'-1', b'0', b'4294967296', b'99999999999999999999', b'1.5', b'3'],
+    'length': [b'abc', b'-1', b'0', b'1', b'99999', b'10000000000000000000000', b'1_0', b'1.5', b'-0', b'9' * 5000, b'1' * 4301],
+    'indent': [b'x', b'-1', b'0', b'4294967296', b'99999999999999999999', b'1.5', b'3', b'7' * 4400],
     'encoding': [b'nope', b'8', b'0', b'idna', b'rot13', b'hex', b'utf-16', b'utf-7', b'cp037', b'ascii', b'punycode',
                  b'unicode_escape', b'undefined', b'mbcs', b'a/b', b'..', b'utf-8-sig', b'037'],
     'line_endings': [b'mac', b'5', b'0', b'DOS', b'unix', b'dos'],
     'format': [b'yaml', b'5', b'JSON'],
-    'version': [b'2.0', b'1', b'1.00', b'abc'],
+    'version': [b'2.0', b'1', b'1.00', b'abc', b'1' * 4500],
     'type': [b'weird', b'5'],
     'mimetype': [b'text/html', b'5'],
 }
